@@ -110,12 +110,30 @@ type c02Obs struct {
 	Panics  []string            `json:"panics,omitempty"`
 }
 
-func c02Fake(cs []c02Ctr) []fakedocker.Container {
+// c02Stages: pipelines whose stages write labels named like container labels. The first line of every container
+// carries such fields; the second one does not, and must come back with the labels of its container.
+var c02Stages = map[string]string{
+	"stages:logfmt":       `| logfmt`,
+	"stages:logfmt-list":  `| logfmt container_name, k`,
+	"stages:json":         `| json`,
+	"stages:label_format": `| label_format container_name="x{{.container_name}}"`,
+}
+
+var c02SrcRe = regexp.MustCompile(`from-id(\d+)-(\d)`)
+
+func c02Fake(cs []c02Ctr, shape string) []fakedocker.Container {
 	var ctrs []fakedocker.Container
 	for i, c := range cs {
 		id := fmt.Sprintf("id%d", i)
+		first := "from-" + id + "-1"
+		switch shape {
+		case "stages:logfmt", "stages:logfmt-list":
+			first += " container_name=proxy container_state=gone k=other com_x_y=w"
+		case "stages:json":
+			first = `{"m":"` + first + `","container_name":"proxy","container_state":"gone","k":"other","com_x_y":"w"}`
+		}
 		recs := []fakedocker.Rec{
-			{Stream: 1, TS: fakedocker.TS(1 * sec), Msg: "from-" + id + "-1"},
+			{Stream: 1, TS: fakedocker.TS(1 * sec), Msg: first},
 			{Stream: 2, TS: fakedocker.TS(2 * sec), Msg: "from-" + id + "-2"},
 		}
 		labels := map[string]string{}
@@ -129,10 +147,10 @@ func c02Fake(cs []c02Ctr) []fakedocker.Container {
 }
 
 func c02Exec(in c02Input) (c02Obs, []fakedocker.LogCall) {
-	ctrs := c02Fake(in.Ctrs)
+	ctrs := c02Fake(in.Ctrs, in.Shape)
 	fake := fakedocker.New(ctrs)
 	if len(in.Before) > 0 {
-		fake = fakedocker.New(c02Fake(in.Before))
+		fake = fakedocker.New(c02Fake(in.Before, in.Shape))
 	}
 	var obs c02Obs
 	sel := c02Selector(in.Matchers)
@@ -140,6 +158,10 @@ func c02Exec(in c02Input) (c02Obs, []fakedocker.LogCall) {
 	params := logqlengine.EvalParams{Start: otelstorage.Timestamp(in.StartNS), End: otelstorage.Timestamp(in.EndNS), Limit: -1}
 	if strings.HasPrefix(in.Shape, "prelude:") {
 		query = sel + " |~ " + strconv.Quote(strings.TrimPrefix(in.Shape, "prelude:"))
+		params.Step = time.Second
+	}
+	if st, ok := c02Stages[in.Shape]; ok {
+		query = sel + " " + st
 		params.Step = time.Second
 	}
 	switch in.Shape {
@@ -250,6 +272,11 @@ func c02Check(r *vkit.Run, in c02Input) {
 	// LogsOptions
 	needStart, needEnd := in.StartNS, in.EndNS
 	exactSince := false
+	_, staged := c02Stages[in.Shape]
+	switch {
+	case staged:
+		exactSince = true
+	}
 	switch in.Shape {
 	case "log", "log-nostep":
 		exactSince = true
@@ -309,7 +336,11 @@ func c02Check(r *vkit.Run, in c02Input) {
 		for _, line := range lineKeys {
 			kv := obs.Lines[line]
 			var src int
-			if _, err := fmt.Sscanf(line, "from-id%d-", &src); err != nil || src >= len(in.Ctrs) {
+			sm := c02SrcRe.FindStringSubmatch(line)
+			if sm != nil {
+				src, _ = strconv.Atoi(sm[1])
+			}
+			if sm == nil || src >= len(in.Ctrs) || (!staged && !strings.HasPrefix(line, "from-id")) {
 				fail("unexpected line "+strconv.Quote(line), "")
 				return
 			}
@@ -319,6 +350,19 @@ func c02Check(r *vkit.Run, in c02Input) {
 				have[k] = v
 			}
 			ref := in.Ctrs[src].refLabels(fmt.Sprintf("id%d", src))
+			if staged {
+				if in.Shape == "stages:label_format" {
+					ref["container_name"] = "x" + ref["container_name"] // every line on its own: once
+				} else if sm[2] == "1" {
+					continue // the line that carries the fields: what it extracts is its own
+				}
+				// what the stage adds to a line without fields (a bare key, the parse error) is not a container label
+				for k := range have {
+					if _, inRef := ref[k]; !inRef && (strings.HasPrefix(k, "from") || strings.HasPrefix(k, "__error")) {
+						delete(have, k)
+					}
+				}
+			}
 			refKeys := make([]string, 0, len(ref))
 			for k := range ref {
 				refKeys = append(refKeys, k)
@@ -347,7 +391,7 @@ func c02Check(r *vkit.Run, in c02Input) {
 				}
 			}
 		}
-		if in.Shape == "log" && len(obs.Lines) != 2*len(want) {
+		if (in.Shape == "log" || staged) && len(obs.Lines) != 2*len(want) {
 			fail(fmt.Sprintf("%d lines returned, %d containers matched with 2 lines each", len(obs.Lines), len(want)), "")
 		}
 	}
@@ -511,6 +555,10 @@ func c02Run(r *vkit.Run) {
 		}
 		for _, te := range [][2]int64{{100 * sec, 200 * sec}, {1500000000, 9 * sec}} {
 			one(c02Input{Ctrs: inv, Matchers: []c02Matcher{all}, Shape: "log-nostep", StartNS: te[0], EndNS: te[1]})
+		}
+		for _, sh := range []string{"stages:logfmt", "stages:logfmt-list", "stages:json", "stages:label_format"} {
+			one(c02Input{Ctrs: inv, Matchers: []c02Matcher{all}, Shape: sh, StartNS: 0, EndNS: 3 * sec})
+			one(c02Input{Ctrs: inv, Matchers: []c02Matcher{{Label: "container_state", Op: "=", Value: "running"}}, Shape: sh, StartNS: 0, EndNS: 3 * sec})
 		}
 		for _, lb := range []int{60, 5} {
 			one(c02Input{Ctrs: inv, Matchers: []c02Matcher{all}, Shape: "instant-log", StartNS: 100 * sec, EndNS: 100 * sec, LookbackS: lb})
